@@ -244,4 +244,12 @@ theorem relType_stripNeg (goal : AExpr) : relType goal = relType (stripNeg goal)
   cases goal <;> simp [stripNeg, relType]
 
 
+/-- The evaluator `const_inequality` picks is sound at the type it is picked for. -/
+theorem ineqEvaluator_sound (T : Ty) (ev : AExpr → Except Err Num) (h : ineqEvaluator T = some ev) :
+    EvSound T ev ∧ (T = .nat ∨ T = .real) := by
+  cases T <;> simp [ineqEvaluator] at h
+  · subst h; exact ⟨evSound_natNum, Or.inl rfl⟩
+  · subst h; exact ⟨evSound_evalHol, Or.inr rfl⟩
+
+
 end Holpy.C05
